@@ -1,6 +1,7 @@
 package main
 
 import (
+	"context"
 	"fmt"
 	"runtime"
 	"sort"
@@ -192,13 +193,18 @@ func emitC11Doc(out *Out, r *Rng) {
 			wg.Wait()
 		}
 	}
-	run := runMerklize(doc, hPoseidon(), loader, true)
+	// the paths are keys only together with the hasher: half of the documents are merklized and resolved under another one
+	hs := hPoseidon()
+	if r.Chance(50) {
+		hs = []HSpec{hSalted(), hShifted()}[r.Intn(2)]
+	}
+	run := runMerklize(doc, hs, loader, true)
 	if run.Err != nil {
 		out.Emit(Case{Op: "none", In: J{"doc": string(doc)}, Impl: errJ(run.Err), Prop: &PropRes{OK: false, Why: "generated document does not merklize: " + run.Err.Error()}, NT: true})
 		return
 	}
 	mz := run.Mz
-	opts := merklize.Options{DocumentLoader: loader}
+	opts := merklize.Options{DocumentLoader: loader, Hasher: hs.H}
 	keys := map[string]merklize.RDFEntry{}
 	erased := map[string]bool{}
 	for _, e := range mz.VerifEntries() {
@@ -303,6 +309,37 @@ func emitC11Doc(out *Out, r *Rng) {
 			// context side: type + field path
 			fp, ferr := opts.FieldPathFromContext(ctxBytes, rootType, dotted)
 			o["field"] = pathPartsJ(fp, ferr)
+			// a path is a key: whichever resolver produced it, it hashes to the key the entry is stored under (with the
+			// merklizer's hasher), and the merklizer finds the entry and proves it with it
+			if err == nil {
+				if e, ok := keys[fmt.Sprintf("%#v", rp.Parts())]; ok {
+					want, kerr := e.KeyMtEntry()
+					cands := map[string]merklize.Path{"Merklizer.ResolveDocPath": rp}
+					if ferr == nil && fmt.Sprintf("%#v", fp.Parts()) == fmt.Sprintf("%#v", rp.Parts()) {
+						cands["Options.FieldPathFromContext"] = fp
+					}
+					if od, oerr := opts.NewPathFromDocument(doc, dotted); oerr == nil && fmt.Sprintf("%#v", od.Parts()) == fmt.Sprintf("%#v", rp.Parts()) {
+						cands["Options.NewPathFromDocument"] = od
+					}
+					if op, perr := mz.Options().NewPathFromDocument(doc, dotted); perr == nil && fmt.Sprintf("%#v", op.Parts()) == fmt.Sprintf("%#v", rp.Parts()) {
+						cands["Merklizer.Options().NewPathFromDocument"] = op
+					}
+					for _, name := range sortedPathNames(cands) {
+						pth := cands[name]
+						got, gerr := pth.MtEntry()
+						if kerr == nil && (gerr != nil || got.Cmp(want) != 0) {
+							why = append(why, fmt.Sprintf("the path %s gives for %s hashes to %v (%v), the entry with these parts is stored under %v (hasher %s)", name, dotted, got, gerr, want, hs.Name))
+							continue
+						}
+						if _, eerr := mz.Entry(pth); eerr != nil {
+							why = append(why, fmt.Sprintf("the merklizer does not find the entry of %s with the path %s gives: %v", dotted, name, eerr))
+						}
+						if pr, _, perr := mz.Proof(context.Background(), pth); perr != nil || !pr.Existence {
+							why = append(why, fmt.Sprintf("the proof for %s with the path %s gives is not an existence proof (%v)", dotted, name, perr))
+						}
+					}
+				}
+			}
 			if ferr == nil && err == nil && fmt.Sprintf("%#v", fp.Parts()) != fmt.Sprintf("%#v", rp.Parts()) {
 				why = append(why, fmt.Sprintf("context-side path %v differs from document-side path %v for %s", fp.Parts(), rp.Parts(), dotted))
 			}
@@ -524,5 +561,14 @@ func keysOfIntSet(m map[int]bool) []int {
 		ks = append(ks, k)
 	}
 	sort.Ints(ks)
+	return ks
+}
+
+func sortedPathNames(m map[string]merklize.Path) []string {
+	var ks []string
+	for k := range m {
+		ks = append(ks, k)
+	}
+	sort.Strings(ks)
 	return ks
 }
